@@ -628,6 +628,38 @@ def run(repo: Repo, ctx) -> None:
     spid = f.params()[1]
     ok, why = guard_first(f, f'not self.can_sync_to_savepoint({spid})',
                           'RuntimeError')
+    if not ok and why == 'guard test not found':
+        # role-based reading: some test about the looked-up savepoint has
+        # an edge that only raises, and that test precedes every store
+        # through self
+        g7 = CFG(f.node)
+        from ..model import inline_locals as _il
+        cands = []
+        for t in g7.nodes:
+            if t.kind != 'test':
+                continue
+            try:
+                txt = _il(f.node, t.ast.test if hasattr(t.ast, 'test')
+                          else t.ast)
+            except Exception:
+                txt = norm(t.ast)
+            if spid not in txt:
+                continue
+            for lab in ('T', 'F'):
+                succ = [x for x, l_ in g7.nodes[t.id].succ if l_ == lab]
+                r = g7.reachable(succ) | set(succ)
+                if succ and g7.exit not in r and any(
+                        isinstance(g7.nodes[x].ast, ast.Raise) for x in r):
+                    cands.append(t.id)
+        stores7 = [n.id for n in g7.nodes if isinstance(
+            n.ast, (ast.Assign, ast.AugAssign)) and any(
+            norm(x).startswith('self.') for x in (
+                n.ast.targets if isinstance(n.ast, ast.Assign)
+                else [n.ast.target]))]
+        if cands and stores7:
+            ok = all(any(g7.always_before(st, [c]) for c in cands)
+                     for st in stores7)
+            why = 'a store through self is not preceded by the lookup test'
     ctx.ob('C09.R7', 'sync_to_savepoint:lookup-failure-raises', ok,
            f'unknown savepoint id does not raise ({why})', f.loc,
            sample='if not can_sync: raise')
@@ -652,7 +684,8 @@ def run(repo: Repo, ctx) -> None:
                         v = v.replace(p_, a_)
                     stores[x.targets[0].attr] = v
     look = [n for n in walk_no_nested(f.node) if isinstance(n, ast.Assign)
-            and norm(n.value) == f'self._savepoints_log[{spid}]']
+            and norm(n.value) in (f'self._savepoints_log[{spid}]',
+                                  f'self._savepoints_log.get({spid})')]
     spv = norm(look[0].targets[0]) if look else 'sp'
     for attr, wants in (('_current_tx', [f'{spv}.tx']),
                         ('_current', [spv]),
@@ -696,6 +729,25 @@ def run(repo: Repo, ctx) -> None:
                    f'are not pruned from {tbl} with `id > <savepoint id>` '
                    f'over a snapshot of its keys', f.loc,
                    sample=f'for id in tuple({tbl}): if id > spid: pop')
+    # a table that is pruned in a shape this rule does not read (entries
+    # are deleted from it, but not by the snapshot loop) cannot be decided
+    for last in ('_savepoints', '_savepoints_log'):
+        if last in tables:
+            continue
+        for fn_node in prune_fns:
+            for x in ast.walk(fn_node):
+                tgt = None
+                if isinstance(x, ast.Delete):
+                    tgt = ' '.join(norm(t) for t in x.targets)
+                elif isinstance(x, ast.Call) and isinstance(
+                        x.func, ast.Attribute) and x.func.attr in (
+                        'pop', 'popitem', 'clear'):
+                    tgt = norm(x.func.value)
+                if tgt and tgt.split('[')[0].split('.')[-1] == last:
+                    raise AnalysisError(
+                        f'C09.R7: sync_to_savepoint prunes {last} in a '
+                        f'shape other than the snapshot loop `for id in '
+                        f'tuple(table): if id > spid: pop`: cannot decide')
     ctx.ob('C09.R7', 'sync_to_savepoint:both-tables',
            tables == {'_savepoints', '_savepoints_log'},
            f'pruned tables: {sorted(tables)} (both the transaction\'s '
